@@ -635,10 +635,15 @@ class Polyhedron(Shape3D):
             attempt += 1
             try:
                 center, r2 = miniball.get_bounding_ball(vertices)
-                break
+                # For degenerate (e.g. cospherical) inputs miniball occasionally
+                # returns a ball that misses some vertices: treat that like a
+                # failed solve.
+                if np.all(np.sum((vertices - center) ** 2, axis=1) <= r2 + 1e-9):
+                    break
             except np.linalg.LinAlgError:
-                current_rotation = rowan.random.rand(1)
-                vertices = rowan.rotate(current_rotation, unit_vertices)
+                pass
+            current_rotation = rowan.random.rand(1)
+            vertices = rowan.rotate(current_rotation, unit_vertices)
         else:
             raise RuntimeError("Unable to solve for a bounding sphere.")
 
